@@ -1062,11 +1062,11 @@ theorem convTop_fresh {inputs : List Name} {rc : Option Nat} :
 function inputs, node outputs and subgraph inputs at every nesting depth — is defined exactly once. -/
 theorem convert_allDefs_nodup {f : Func} {g : Graph} (h : convert f = .ok g)
     (hp : (tensorParams f.params).Nodup) : g.allDefs.Nodup := by
-  unfold convert at h
+  obtain ⟨h, _, d0, ha0⟩ := convert_core h
+  unfold convertCore at h
   cases ha : assignedBlock f.body with
-  | none => rw [ha] at h; cases h
+  | none => rw [ha] at ha0; cases ha0
   | some d =>
-    rw [ha] at h
     simp only at h
     cases hc : convTop (tensorParams f.params) f.retCount [paramFrame f.params] f.body []
         { used := (tensorParams f.params).reverse, next := 0, castable := [] } with
